@@ -2,6 +2,7 @@
 C13 — concurrent file reads never exceed the configured limits.
 -/
 import DtailModel.Model.Limiter
+set_option autoImplicit false
 namespace Dtail.C13
 open Dtail
 
